@@ -3,6 +3,7 @@ CONSTANTS
   Focus = {"a"}
   NDcf = 2
   MaxArgv = 3
+  Repeat = TRUE
   Emit = TRUE
 INVARIANT DocumentedOrder
 INVARIANT StagesAgree
